@@ -417,9 +417,11 @@ def kani_replay(crate, h, scratch_root):
         return out
     out['found'] = True
     out['test_name'], out['test_code'] = src
-    cmd = ['cargo', 'kani', 'playback', '-Z', 'concrete-playback', '--target-dir', tgt + '-playback', '--test', src[0]]
+    cmd = ['cargo', 'kani', 'playback', '-Z', 'concrete-playback', '--', src[0]]
     rc, o, e, w = sh(cmd, cwd=cdir, timeout=1200)
-    out['run_output'] = (o + e)[-4000:]
+    full = o + e
+    keep = [l for l in full.split('\n') if 'panicked at' in l or 'assertion' in l or 'test result' in l or l.startswith('test ')]
+    out['run_output'] = '\n'.join(keep[:20]) + '\n...\n' + full[-1500:]
     out['reproduced'] = (rc != 0 and rc != 'timeout' and ('panicked' in (o + e) or 'FAILED' in (o + e)))
     return out
 
